@@ -1034,6 +1034,22 @@ class Compiler:
                 self.err(node, "isinstance unsupported")
             if name == "set" and not node.args:
                 return self.alloc(ctx, "Set", cur, node)
+            if name == "getattr" and len(node.args) == 3 and isinstance(node.args[1], ast.Constant):
+                # getattr(obj, "field", default): an absent attribute is the UNSET code
+                fake = ast.Attribute(value=node.args[0], attr=node.args[1].value, ctx=ast.Load())
+                ast.copy_location(fake, node)
+                f = node.args[1].value
+                cur, obj = self.ev(ctx, node.args[0], cur)
+                cur, dflt = self.ev(ctx, node.args[2], cur)
+                if not any(f in i.fields for i in self.m.classes.values()):
+                    return cur, dflt
+                e = ("fld", obj, f)
+                if not self.field_immutable(f):
+                    t = self.fresh(ctx.thread, "ga")
+                    n = self.m.new_node()
+                    self.emit(ctx, cur, n, updates=[(V(t), e)], visible=True, node=node, info=f"getattr .{f}", access=[f])
+                    cur, e = n, V(t)
+                return cur, ("ite", ("eq", e, C(UNSET)), dflt, e)
             if name == "await_":
                 self.pure_loads = True      # the condition is re-evaluated on the state, not on a snapshot
                 try:
